@@ -97,7 +97,7 @@ func check(d *desc, obs *ss.Obs) error {
 func run(c *core.Ctx, d *desc) error {
 	obs, term := ss.Exec(&d.Case)
 	if c != nil && obs.SetupErr == nil {
-		c.AddCase(term, d)
+		c.AddCase("CS ("+term+")", d)
 	}
 	return check(d, obs)
 }
@@ -105,45 +105,113 @@ func run(c *core.Ctx, d *desc) error {
 func ho(a bool) ss.Step { return ss.Step{Kind: "handoff", WhoA: a} }
 
 // blob-level checks on the real importer: every strict prefix, wrong magic, wrong version are rejected
+func rawblobTerm(flags byte, key, eiv, div []byte, ectr, dctr uint32, sdg, rdg, peer []byte) string {
+	return fmt.Sprintf("{| rb_flags := %d; rb_key := %s; rb_eiv := %s; rb_div := %s; rb_ectr := %d; rb_dctr := %d; rb_sdg := %s; rb_rdg := %s; rb_peer := %s |}",
+		flags, core.Hex(key), core.Hex(eiv), core.Hex(div), ectr, dctr, core.Hex(sdg), core.Hex(rdg), core.Hex(peer))
+}
+
+// importObs runs the real importer on bs and renders what it installed as an `option rawblob` term.
+func importObs(bs []byte) (string, bool) {
+	ca, _, _, _ := ss.Pair()
+	st, err := stream.NewStreamWithCryptoState(ca, bs)
+	if err != nil {
+		return "None", false
+	}
+	sn := st.VerifSnapshot()
+	var flags byte
+	set := func(b bool, v int) {
+		if b {
+			flags |= byte(v)
+		}
+	}
+	set(sn.Encrypted, stream.VerifCsFlagEncrypted)
+	set(sn.Authenticated, stream.VerifCsFlagAuthenticated)
+	set(sn.FinishedSendAAD, stream.VerifCsFlagFinSendAAD)
+	set(sn.FinishedRecvAAD, stream.VerifCsFlagFinRecvAAD)
+	set(sn.SendDigestWritten, stream.VerifCsFlagSendDgWritten)
+	set(sn.RecvDigestWritten, stream.VerifCsFlagRecvDgWritten)
+	peer := []byte(st.GetPeerAddr())
+	if string(peer) == "<127.0.0.1:2>" { // the in-memory conn's own address: the blob's peer field was empty
+		peer = nil
+	}
+	return "(Some " + rawblobTerm(flags, sn.Key, sn.EncryptIV[:], sn.DecryptIV[:], sn.EncryptCounter, sn.DecryptCounter, sn.FinalSendDigest, sn.FinalRecvDigest, peer) + ")", true
+}
+
+// blob-level checks on the real exporter/importer: layout, every strict prefix, wrong magic, wrong version
 func blobChecks(c *core.Ctx) {
 	ca, cb, _, _ := ss.Pair()
 	a, b := stream.NewStream(ca), stream.NewStream(cb)
 	bg := context.Background()
+	a.SendMessage(bg, []byte("clear")) // so that one digest is a real hash, the other the zero block
+	b.ReceiveCompleteMessage(bg)
 	a.SetSymmetricKey(key)
 	b.SetSymmetricKey(key)
+	a.SetPeerAddr("<10.1.2.3:9618?sock=x>")
 	a.SendMessage(bg, []byte("x"))
 	b.ReceiveCompleteMessage(bg)
 	b.SendMessage(bg, []byte("y"))
 	a.ReceiveCompleteMessage(bg)
+	a.SetAuthenticated(true)
 	blob, err := a.ExportCryptoState()
 	c.OracleCheck()
 	if err != nil {
 		c.OracleFail("export-refused", "export of a clean established session refused: "+err.Error(), map[string]interface{}{"blob": true})
 		return
 	}
-	for n := 0; n < len(blob); n++ {
+	// serialiser correspondence: the model's layout for these field values equals the real blob
+	sn := a.VerifSnapshot()
+	var flags byte
+	for _, fv := range []struct {
+		b bool
+		v int
+	}{{sn.Encrypted, stream.VerifCsFlagEncrypted}, {sn.Authenticated, stream.VerifCsFlagAuthenticated}, {sn.FinishedSendAAD, stream.VerifCsFlagFinSendAAD},
+		{sn.FinishedRecvAAD, stream.VerifCsFlagFinRecvAAD}, {sn.SendDigestWritten, stream.VerifCsFlagSendDgWritten}, {sn.RecvDigestWritten, stream.VerifCsFlagRecvDgWritten}} {
+		if fv.b {
+			flags |= byte(fv.v)
+		}
+	}
+	c.AddCase(fmt.Sprintf("CSer %s %s", rawblobTerm(flags, sn.Key, sn.EncryptIV[:], sn.DecryptIV[:], sn.EncryptCounter, sn.DecryptCounter, sn.FinalSendDigest, sn.FinalRecvDigest, []byte(a.GetPeerAddr())), core.Hex(blob)),
+		map[string]interface{}{"blob": "ser"})
+	for n := 0; n <= len(blob); n++ {
 		c.OracleCheck()
-		c.Evaluated(1)
-		if _, err := stream.NewStreamWithCryptoState(ca, blob[:n]); err == nil {
+		obs, ok := importObs(blob[:n])
+		c.AddCase(fmt.Sprintf("CParse %s %s", core.Hex(blob[:n]), obs), map[string]interface{}{"blob": "truncate", "n": n})
+		if n < len(blob) && ok {
 			c.OracleFail("import-truncated", fmt.Sprintf("import accepted a blob truncated to %d of %d bytes", n, len(blob)), map[string]interface{}{"blob": true, "truncate": n})
+		}
+		if n == len(blob) && !ok {
+			c.OracleFail("import-valid-rejected", "import rejected the blob the exporter produced", map[string]interface{}{"blob": true})
 		}
 	}
 	c.Count("blob-truncations")
-	for i := 0; i < 6; i++ { // magic (4) + version (2)
-		for _, x := range []byte{0x01, 0x80, 0xff} {
+	for i := 0; i < len(blob); i++ { // single-byte corruption of every byte; magic (4) + version (2) must be rejected
+		for _, x := range []byte{0x01, 0x80} {
 			mut := append([]byte(nil), blob...)
 			mut[i] ^= x
+			obs, ok := importObs(mut)
 			c.OracleCheck()
-			c.Evaluated(1)
-			if _, err := stream.NewStreamWithCryptoState(ca, mut); err == nil {
+			c.AddCase(fmt.Sprintf("CParse %s %s", core.Hex(mut), obs), map[string]interface{}{"blob": "corrupt", "byte": i, "xor": x})
+			if i < 6 && ok {
 				c.OracleFail("import-mistagged", fmt.Sprintf("import accepted a blob with byte %d of magic/version altered", i), map[string]interface{}{"blob": true, "byte": i})
 			}
 		}
 	}
-	c.Count("blob-magic-version")
-	if _, err := stream.NewStreamWithCryptoState(ca, blob); err != nil {
-		c.OracleFail("import-valid-rejected", err.Error(), map[string]interface{}{"blob": true})
+	c.Count("blob-corruptions")
+	// random byte strings and blobs with hostile length fields
+	for r := 0; r < 200; r++ {
+		n := c.Rng.Intn(140)
+		bs := make([]byte, n)
+		c.Rng.Read(bs)
+		if r%2 == 0 && n >= 6 {
+			copy(bs, blob[:6])
+		}
+		if r%4 == 0 && n > 81 {
+			bs[79], bs[80] = byte(c.Rng.Intn(256)), byte(c.Rng.Intn(256))
+		}
+		obs, _ := importObs(bs)
+		c.AddCase(fmt.Sprintf("CParse %s %s", core.Hex(bs), obs), map[string]interface{}{"blob": "random"})
 	}
+	c.Count("blob-random")
 }
 
 func gen(c *core.Ctx) error {
